@@ -34,6 +34,12 @@ type lcEvent struct {
 	OverP2  Ret      `json:"overP2"`
 	KeptP1  V        `json:"keptP1"` // field after that
 	KeptP2  V        `json:"keptP2"`
+	// independence of instances: other claims-sets that were given this value by their setter (two before, one after)
+	// still hold it after the first pair was overwritten in place - through the stored pointer and by decoding
+	// another value into the same struct
+	IndP1   Ret `json:"indP1"`
+	IndP2   Ret `json:"indP2"`
+	IndLate Ret `json:"indLate"`
 }
 
 func lcGet(c psatoken.IClaims) Ret {
@@ -50,12 +56,25 @@ func init() {
 			ev := lcEvent{Op: "LC", V: i, State: int(st), Valid: st.IsValid(), Name: st.String()}
 			verr := psatoken.ValidateSecurityLifeCycle(v)
 			ev.VOK, ev.VCls = verr == nil, classes(verr)
+			w1, _ := psatoken.NewClaims(psatoken.Profile1Name)
+			w2, _ := psatoken.NewClaims(psatoken.Profile2Name)
+			w1.SetSecurityLifeCycle(v)
+			w2.SetSecurityLifeCycle(v)
 			p1, _ := psatoken.NewClaims(psatoken.Profile1Name)
 			p2, _ := psatoken.NewClaims(psatoken.Profile2Name)
 			ev.SetP1 = mkRet(p1.SetSecurityLifeCycle(v), absent())
 			ev.SetP2 = mkRet(p2.SetSecurityLifeCycle(v), absent())
 			ev.GetP1, ev.GetP2 = lcGet(p1), lcGet(p2)
 			ev.StoreP1, ev.StoreP2 = AbsClaims(p1).Lifecycle, AbsClaims(p2).Lifecycle
+			if q := p1.(*psatoken.P1Claims).SecurityLifeCycle; q != nil {
+				*q ^= 0xffff
+			}
+			if err := json.Unmarshal([]byte(`{"psa-security-lifecycle": 24576}`), p2.(*psatoken.P2Claims)); err != nil {
+				fatal("decode into p2: %v", err)
+			}
+			w3, _ := psatoken.NewClaims([]string{psatoken.Profile1Name, psatoken.Profile2Name}[i%2])
+			w3.SetSecurityLifeCycle(v)
+			ev.IndP1, ev.IndP2, ev.IndLate = lcGet(w1), lcGet(w2), lcGet(w3)
 			ev.LitP1 = lcGet(&psatoken.P1Claims{SecurityLifeCycle: &v, CanonicalProfile: psatoken.Profile1Name})
 			ev.LitP2 = lcGet(&psatoken.P2Claims{SecurityLifeCycle: &v, CanonicalProfile: psatoken.Profile2Name})
 			d1 := &psatoken.P1Claims{CanonicalProfile: psatoken.Profile1Name}
